@@ -430,6 +430,11 @@ class Sim:
                 raise SimKill()
             self._post_resume(t)
             t.retval = t.fn()
+            # between run() returning and the thread no longer counting as alive there is
+            # interpreter code (threading's bootstrap): a thread can be pre-empted -- or stalled
+            # for long -- there, e.g. right after the last Event.set() of a connection thread
+            # that has nothing more to do
+            self.yield_('thread.end', t.role)
         except SimKill:
             pass
         except SimSpin as e:
